@@ -752,6 +752,13 @@ func ruleValidateFields(p *Program, r *Result, validators map[string]*ssa.Functi
 			n++
 			_, whole := b["validated:"+f.Name()]
 			_, elems := b["validated-elem:"+f.Name()]
+			// a list whose elements have rules of their own (an argument's length limits): validating the list as a
+			// whole counts only if the list's validator applies the element's validator
+			if sl, isList := f.Type().Underlying().(*types.Slice); isList && whole && !elems {
+				if et := listElemValidated(p, f.Type(), sl.Elem()); !et {
+					whole = false
+				}
+			}
 			r.cond(whole || elems, "R-VALIDATE-FIELDS", t+".Validate:"+f.Name(), p.Pos(V.Pos()),
 				fmt.Sprintf("%s.Validate runs the validator of field %s on every accepting path and fails when it fails", t, f.Name()),
 				fmt.Sprintf("%s.Validate does not run the validator of field %s on every accepting path with its error making the validation fail: a decoded value breaking the field's own rules is returned without error", t, f.Name()))
@@ -760,6 +767,52 @@ func ruleValidateFields(p *Program, r *Result, validators map[string]*ssa.Functi
 	if len(validators) > 1 {
 		r.floor("R-VALIDATE-FIELDS", 20)
 	}
+}
+
+// listElemValidated: the validator of list type lt applies a Validate of an element-shaped type (one whose
+// underlying type is the element's) that can fail, to its elements. When no such element validator exists in the
+// package there is nothing the list validator could be skipping.
+func listElemValidated(p *Program, lt types.Type, elem types.Type) bool {
+	// element validators: named types of the root package with the element's underlying type and a fallible Validate
+	var elemTypes []types.Type
+	sc := p.Root().Types.Scope()
+	for _, name := range sc.Names() {
+		tn, ok := sc.Lookup(name).(*types.TypeName)
+		if !ok {
+			continue
+		}
+		if types.Identical(tn.Type().Underlying(), elem.Underlying()) && !types.Identical(tn.Type(), lt) && hasValidateMethod(p, tn.Type()) && !validatorCannotFail(p, tn.Type()) {
+			if _, isSlice := tn.Type().Underlying().(*types.Slice); !isSlice && strings.Contains(tn.Name(), "Arg") {
+				elemTypes = append(elemTypes, tn.Type())
+			}
+		}
+	}
+	if len(elemTypes) == 0 {
+		return true
+	}
+	for _, tt := range []types.Type{lt, types.NewPointer(lt)} {
+		ms := p.SSA.MethodSets.MethodSet(tt)
+		for i := 0; i < ms.Len(); i++ {
+			if ms.At(i).Obj().Name() != "Validate" {
+				continue
+			}
+			fobj, _ := ms.At(i).Obj().(*types.Func)
+			fn := p.SSA.FuncValue(fobj)
+			if fn == nil {
+				continue
+			}
+			for _, c := range allCalls(fn) {
+				if g := c.Common().StaticCallee(); g != nil && g.Name() == "Validate" && g.Signature.Recv() != nil && blockReachFromSelf(c.Block()) {
+					for _, et := range elemTypes {
+						if types.Identical(derefT(g.Signature.Recv().Type()), et) {
+							return true
+						}
+					}
+				}
+			}
+		}
+	}
+	return false
 }
 
 // validateFieldExceptions: fields whose own validator has nothing to say in the context of the type (confirmed by
